@@ -26,7 +26,14 @@ for mp in sorted(glob.glob(f"{ROOT}/seeded/C*/meta.json")):
             d["checks_from_log"] = True
             json.dump(d, open(mp, "w"), indent=1)
     hist = d.get("history", "")
-    when = "missed → strengthened" if "MISSED" in hist else ("caught by another property's check → strengthened" if hist.startswith("Outside") else "caught")
+    if "MISSED" in hist:
+        when = "missed → strengthened"
+    elif hist.startswith("NOT A VERDICT"):
+        when = "engine error, not a verdict → strengthened"
+    elif hist.startswith("Outside"):
+        when = "caught by the check that owns the seam"
+    else:
+        when = "caught"
     rep = "; ".join(f"{k}: {v.replace('VIOLATION ', '')}" for k, v in d.get("checks_run", {}).items())
     clean = lambda s: re.sub(r"\s+", " ", s).replace("|", "\\|").strip()
     title = re.sub(r"^C\d\d\s*/\s*(round \d\s*/\s*)?(mutation |m)?\d\s*[-:]\s*", "", d["title"])
